@@ -471,7 +471,7 @@ func (t *Task) load(
 	var (
 		t0   = time.Now()
 		eg   errgroup.Group
-		part = t.batchSize / t.concurrency
+		part = max(1, t.batchSize/t.concurrency)
 
 		blocksMut sync.Mutex
 		blocks    []eth.Block
